@@ -177,6 +177,10 @@ func classifyDaemonDump(dump string) (bool, string) {
 				}
 			}
 			stuck = append(stuck, g.State+" in "+top)
+		case "syscall":
+			if blockedInFifoOpen(g) {
+				stuck = append(stuck, "blocked in a FIFO open/read syscall in namedpipe Ingest")
+			}
 		case "running", "runnable":
 			return false, "goroutine " + g.ID + " is " + g.State
 		}
